@@ -186,6 +186,13 @@ class ExprBuilder:
                 return self.operand(rv['op'], proj, d + 1)
             return E('cast', name=rv['ty'], args=[self.operand(rv['op'], (), d + 1)], site=site, extra=rv)
         if k == 'bin':
+            if rv['op'].endswith('WithOverflow'):
+                # checked arithmetic: (value, overflowed); `.0` is the value
+                p = [x for x in proj if x != '*']
+                if p and p[0] == ('t', 1):
+                    return E('unknown', name='overflow-flag', site=site)
+                return E('bin', name=rv['op'][:-len('WithOverflow')],
+                         args=[self.operand(rv['a'], (), d + 1), self.operand(rv['b'], (), d + 1)], site=site)
             return E('bin', name=rv['op'], args=[self.operand(rv['a'], (), d + 1), self.operand(rv['b'], (), d + 1)],
                      site=site)
         if k == 'un':
@@ -222,7 +229,12 @@ class ExprBuilder:
                      proj=fields_of(p))
         return E('unknown', name=k, site=site)
 
+    PURE_VIEW = ('deref', 'deref_mut', 'as_ref', 'as_mut', 'borrow', 'borrow_mut')
+
     def _call(self, c, proj, d):
+        if proj and c.name in self.PURE_VIEW and len(c.args) == 1 and any(p != '*' for p in proj):
+            # (*x.deref()).f  ==  x.f
+            return self.operand(c.args[0], proj, d + 1)
         return E('call', name=c.callee or '<indirect>', args=[self.operand(a, (), d + 1) for a in c.args],
                  site=(c.bb, 'term'), extra=c, proj=fields_of(proj))
 
@@ -464,10 +476,15 @@ def count_on_paths(body, start, ends, marks, limit=64):
     Loops: a marked block inside a cycle reachable on such a path yields max=inf (limit)."""
     marks = set(marks)
     ends = set(ends)
-    succ = body.succ()
+    _succ = body.succ()
+    # end nodes are terminal: paths stop at the first end they reach
+    succ = [([] if (i in ends and i != start) else ss) for i, ss in enumerate(_succ)]
     # nodes that can reach an end
     reach_end = set()
-    pred = body.pred()
+    pred = [[] for _ in range(body.n)]
+    for i, ss in enumerate(succ):
+        for x in ss:
+            pred[x].append(i)
     st = list(ends)
     while st:
         x = st.pop()
@@ -476,7 +493,15 @@ def count_on_paths(body, start, ends, marks, limit=64):
         reach_end.add(x)
         for p in pred[x]:
             st.append(p)
-    nodes = body.reach_from(start) & reach_end
+    fwd = set()
+    st = [start]
+    while st:
+        x = st.pop()
+        if x in fwd:
+            continue
+        fwd.add(x)
+        st.extend(succ[x])
+    nodes = fwd & reach_end
     # SCC condensation for max with cycles
     index = {}
     low = {}
